@@ -10,6 +10,15 @@ from . import build
 TMP = os.path.join(build.BUILD, "tmp")
 
 
+def _unlimit_as():
+    import resource
+    try:
+        soft, hard = resource.getrlimit(resource.RLIMIT_AS)
+        resource.setrlimit(resource.RLIMIT_AS, (hard, hard))
+    except Exception:
+        pass
+
+
 class Server:
     def __init__(self, path, env=None, chunk_bytes=24000, chunk_cases=64):
         self.path = path
@@ -25,7 +34,7 @@ class Server:
         os.makedirs(TMP, exist_ok=True)
         self.errf = tempfile.TemporaryFile(dir=TMP)
         self.proc = subprocess.Popen([self.path], stdin=subprocess.PIPE, stdout=subprocess.PIPE,
-                                     stderr=self.errf, env=self.env, bufsize=0)
+                                     stderr=self.errf, env=self.env, bufsize=0, preexec_fn=_unlimit_as)
         self.rd = os.fdopen(os.dup(self.proc.stdout.fileno()), "rb", buffering=1 << 16)
 
     def close(self):
